@@ -1,7 +1,7 @@
 (* C13: define-then-delete is the identity; feature dependencies stay consistent
    (statements only; proofs in DepsProofs.v / DepsTables.v). *)
 From Coq Require Import ZArith List Bool Arith Lia.
-From CV Require Import C13.DepsModel C13.DepsProofs C13.DepsTables Gen.GenDeps.
+From CV Require Import C13.DepsModel C13.InvModel C13.DepsProofs C13.DepsTables C13.ModuleModel C13.ModuleProofs C13.DepsInv C13.ModuleInv C13.ModuleRooted C13.EnableExcl C13.EnableWitness Gen.GenDeps.
 Import ListNotations.
 
 (* ---- table theorems, re-checked on every run against the tables dumped from the binary ---- *)
@@ -22,6 +22,43 @@ Print Assumptions GenDeps_exclusions_symmetric.
 Theorem GenDeps_children_ids_valid : children_ids_valid gen_tables /\ children_ids_valid gen_tables_lagged.
 Proof. exact gen_children_ids_valid. Qed.
 Print Assumptions GenDeps_children_ids_valid.
+
+(* ---- termination of the enable family ----
+   For any tables whose requires graphs pass the acyclicity check and have at most Dmax features per class, and any
+   object graph with a height that decreases from parent to child, fuel above height(o)*(Dmax+1)+Dmax suffices:
+   enable (every flag combination, every state of that shape) returns, and so does restore_children_deps. *)
+Theorem C13_enable_terminates : forall (T : tables) (Dmax : nat),
+  forallb acyclic_check T = true -> forallb (fun t => length t <=? Dmax) T = true ->
+  forall (h : nat -> nat) (s0 : state), (forall o c, In c (o_children (get_obj s0 o)) -> h c < h o) ->
+  forall n o f dry top err s, same_shape s0 s -> h o * S Dmax + Dmax < n ->
+  exists r s', enable T n o f dry top err s = Some (r, s') /\ same_shape s0 s'.
+Proof. exact enable_terminates_tables. Qed.
+Print Assumptions C13_enable_terminates.
+
+(* On the real (regenerated) tables, both variants: fuel above height(o)*39+38 (at most 155 with the four levels
+   bias > variable > component > atom group). *)
+Theorem GenDeps_enable_terminates : forall T, T = gen_tables \/ T = gen_tables_lagged ->
+  forall (h : nat -> nat) (s0 : state), (forall o c, In c (o_children (get_obj s0 o)) -> h c < h o) ->
+  forall n o f dry top err s, same_shape s0 s -> h o * 39 + 38 < n ->
+  exists r s', enable T n o f dry top err s = Some (r, s') /\ same_shape s0 s'.
+Proof. exact gen_enable_terminates. Qed.
+Print Assumptions GenDeps_enable_terminates.
+
+Theorem GenDeps_restore_terminates : forall T, T = gen_tables \/ T = gen_tables_lagged ->
+  forall (h : nat -> nat) (s0 : state), (forall o c, In c (o_children (get_obj s0 o)) -> h c < h o) ->
+  forall n o s, same_shape s0 s -> h o * 39 <= n ->
+  exists s', restore_children_deps T n o s = Some s' /\ same_shape s0 s'.
+Proof. exact gen_restore_terminates. Qed.
+Print Assumptions GenDeps_restore_terminates.
+
+(* non-vacuity: a bias over a variable, heights 1 and 0 *)
+Example C13_example_heights :
+  let s0 := [w_cv [34; 35] [1]; w_bias [0]] in let h := fun o => match o with 1 => 1 | _ => 0 end in
+  forall o c, In c (o_children (get_obj s0 o)) -> h c < h o.
+Proof.
+  intros s0 h o c. destruct o as [|[|[|o]]]; cbn; intros H; try contradiction.
+  destruct H as [H|H]; [subst c; cbn; lia | contradiction].
+Qed.
 
 (* ---- general theorems: every table, every state, every primitive, every flag combination,
         successful or failed call, any fuel that suffices for the call to return ---- *)
@@ -54,19 +91,22 @@ Print Assumptions C13_exclusion_preserved_by_release.
 
 (* ---- "no capability is switched off while something that needs it remains" ----
    FULL STATEMENT (false of the code, see the counterexample below):
-     forall T n o g s s', requires_inv T s -> disable T n o g s = Some (true, s') -> requires_inv T s'
-   where requires_inv: every enabled f has every g in requires_self(f) enabled.
-   What holds: disable refuses a feature with more than one reference, and changes nothing then. *)
-Theorem C13_no_switch_off_while_needed_partial : forall (T : tables) n o f s,
+     forall T n o g s s', consistent T s -> disable T n o g s = Some (true, s') -> consistent T s'
+   (consistent: DepsInv.v; it implies that every enabled capability has its prerequisites enabled).
+   What holds: (a) disable refuses a feature with more than one reference, and changes nothing then;
+   (b) C13_disable_keeps_consistency_partial / C13_no_switch_off_while_needed_partial below: the statement holds for
+   every call on a feature whose ref_count is not exactly 1, and for all sequences of deletions. *)
+Theorem C13_disable_refuses_multiply_referenced_feature : forall (T : tables) n o f s,
   (1 < fs_rc (get_fs s o f))%Z -> is_enabled s o f = true -> disable T (S n) o f s = Some (false, s).
 Proof. exact disable_refuses. Qed.
-Print Assumptions C13_no_switch_off_while_needed_partial.
+Print Assumptions C13_disable_refuses_multiply_referenced_feature.
 
 (* Counterexample on the real tables: a scalar variable with output_total_force (20) on, which requires
    total_force (7) and holds the only reference to it (ref_count 1): disable(7) succeeds. *)
 Theorem C13_no_switch_off_while_needed_refuted : exists s s',
   enable gen_tables 20 0 20 false true false w3_s0 = Some (true, s) /\
   In 7 (f_self (feat gen_tables (cls_of s 0) 20)) /\ is_enabled s 0 20 = true /\ is_enabled s 0 7 = true /\
+  fs_rc (get_fs s 0 7) = 1%Z /\
   disable gen_tables 20 0 7 s = Some (true, s') /\
   is_enabled s' 0 20 = true /\ is_enabled s' 0 7 = false.
 Proof. exact w3_witness. Qed.
@@ -91,18 +131,42 @@ Proof. exact enable_enabled_bumps. Qed.
 Print Assumptions C13_enable_of_enabled_adds_one_reference.
 
 (* ---- deleting a bias ----
-   FULL STATEMENT (false of the code): deleting a bias leaves every requirement of the remaining active
-   biases enabled in their children (I3 preserved by delete_bias).
-   Counterexample: two biases apply forces on one variable; the first is asleep (its references have been
-   released by disable(active)); colvarbias::clear() releases them again. *)
-Theorem C13_delete_inactive_bias_refuted : exists s s',
+   (The code used to release the children's dependencies of an inactive bias a second time; repaired by the
+   fix "deleting a sleeping bias released its variables' dependencies twice"; the model follows the repair.)
+   Deleting an inactive bias changes links only: no enabled flag, reference count or alternate_refs of any
+   object changes. *)
+Theorem C13_delete_inactive_bias_only_unlinks : forall (T : tables) n b s,
+  is_enabled s b 0 = false ->
+  delete_bias T n b s = Some (remove_all_children b s) /\
+  forall o f, get_fs (remove_all_children b s) o f = get_fs s o f.
+Proof. intros T n b s H. split; [apply delete_bias_inactive; exact H | intros o f; apply remove_all_children_fs]. Qed.
+Print Assumptions C13_delete_inactive_bias_only_unlinks.
+
+(* A successful disable leaves the feature off (any feature, any state) ... *)
+Theorem C13_disable_turns_off : forall (T : tables) n o f s s',
+  disable T n o f s = Some (true, s') -> is_enabled s' o f = false.
+Proof. exact disable_turns_off. Qed.
+Print Assumptions C13_disable_turns_off.
+
+(* ... hence putting a bias to sleep (which releases what it required of its children) and then deleting it
+   releases nothing a second time: the deletion changes no feature state of any object. *)
+Theorem C13_delete_sleeping_bias_releases_nothing : forall (T : tables) n m b s s1 s2,
+  disable T n b 0 s = Some (true, s1) -> delete_bias T m b s1 = Some s2 ->
+  forall o f, get_fs s2 o f = get_fs s1 o f.
+Proof. exact delete_sleeping_bias_releases_nothing. Qed.
+Print Assumptions C13_delete_sleeping_bias_releases_nothing.
+
+(* non-vacuity and regression example on the real tables (the former counterexample): two biases apply forces on
+   one variable, the first is asleep and is deleted; the requirement of the second stays enabled, count 1. *)
+Example C13_example_delete_sleeping_bias : exists s s',
   run_ops gen_tables 20 w1_ops w1_s0 = Some s /\
+  is_enabled s 1 0 = false /\ is_enabled s 1 3 = true /\
   is_enabled s 2 0 = true /\ is_enabled s 2 3 = true /\ In 2 (f_children (feat gen_tables 0 3)) /\
-  In 0 (o_children (get_obj s 2)) /\ is_enabled s 0 2 = true /\
+  In 0 (o_children (get_obj s 2)) /\ is_enabled s 0 2 = true /\ fs_rc (get_fs s 0 2) = 1%Z /\
   delete_bias gen_tables 20 1 s = Some s' /\
-  is_enabled s' 2 0 = true /\ is_enabled s' 2 3 = true /\ In 0 (o_children (get_obj s' 2)) /\ is_enabled s' 0 2 = false.
-Proof. exact w1_witness. Qed.
-Print Assumptions C13_delete_inactive_bias_refuted.
+  is_enabled s' 2 3 = true /\ In 0 (o_children (get_obj s' 2)) /\ is_enabled s' 0 2 = true /\ fs_rc (get_fs s' 0 2) = 1%Z /\
+  o_parents (get_obj s' 0) = [2].
+Proof. exact w1_regression. Qed.
 
 (* ---- define-then-delete ----
    FULL STATEMENT (C13_add_delete_identity, false of the code): linking a bias to a variable, activating it and
@@ -131,4 +195,282 @@ Example C13_example_guard : exists s, (1 < fs_rc (get_fs s 0 2))%Z /\ is_enabled
 Proof.
   exists [mkObj 1 (map (fun i => mkFstate true (Nat.eqb i 2) 2%Z []) (seq 0 38)) [] []].
   split; vm_compute; reflexivity.
+Qed.
+
+(* ==== run-time definition and deletion of objects (ModuleModel.v) ====
+   wf m (ModuleProofs.wfs): children and parents mirror each other with multiplicity; bias > variable > component >
+   atom group; a destroyed object refers to nothing and nothing refers to it; a component has one variable, an atom
+   group one component; only atom groups hold atoms.
+   acct m: the engine-side reference count of every atom = number of atom objects held by atom groups. *)
+
+(* For all tables, all fuel, ALL finite sequences over {define variable (any shape), define bias (on any numbers),
+   any colvardeps primitive on any object/feature/flags, delete bias, delete variable (with its biases), reset}:
+   links stay consistent and atoms stay accounted for. *)
+Theorem C13_links_and_atoms_stay_consistent : forall (T : tables) n (ps : list mop) m m',
+  wf m -> acct m -> m_run T n ps m = Some m' -> wf m' /\ acct m'.
+Proof. exact m_run_wf. Qed.
+Print Assumptions C13_links_and_atoms_stay_consistent.
+
+Theorem C13_initial_state_consistent : forall k, wf (m_empty k) /\ acct (m_empty k).
+Proof. exact empty_wf. Qed.
+Print Assumptions C13_initial_state_consistent.
+
+(* "no reference to a deleted object is ever used": in a consistent state whatever a live object lists among its
+   children or parents is a live object (a valid number), and a destroyed object is listed nowhere. *)
+Theorem C13_no_reference_to_deleted_object : forall m o x,
+  wf m -> alive_in (m_info m) o = true -> In x (children (m_objs m) o ++ parents (m_objs m) o) ->
+  alive_in (m_info m) x = true /\ x < length (m_objs m).
+Proof. intros m o x W. apply wfs_no_dangling. exact W. Qed.
+Print Assumptions C13_no_reference_to_deleted_object.
+
+Theorem C13_deleted_object_fully_unlinked : forall m o,
+  wf m -> alive_in (m_info m) o = false ->
+  children (m_objs m) o = [] /\ parents (m_objs m) o = [] /\ i_atoms (info_of (m_info m) o) = [].
+Proof. intros m o W. apply (wf_dead _ _ W). Qed.
+Print Assumptions C13_deleted_object_fully_unlinked.
+
+(* "atoms no longer used are released": an atom that no live atom group holds has reference count 0. *)
+Theorem C13_unused_atoms_released : forall m a,
+  wf m -> acct m -> a < length (m_atoms m) ->
+  (forall o, alive_in (m_info m) o = true -> ~ In a (i_atoms (info_of (m_info m) o))) ->
+  nth a (m_atoms m) 0%Z = 0%Z.
+Proof. exact unused_atom_released. Qed.
+Print Assumptions C13_unused_atoms_released.
+
+(* deletion deletes: the variable (bias) is destroyed, nothing is revived, classes and the number of objects stay *)
+Theorem C13_delete_colvar_destroys : forall (T : tables) n v m m',
+  wf m -> m_delete_colvar T n v m = Some m' ->
+  wf m' /\ mshrinks m m' /\
+  (alive_in (m_info m) v = true -> class (m_objs m) v = 1 -> alive_in (m_info m') v = false) /\
+  (acct m -> acct m').
+Proof. exact m_delete_colvar_wf. Qed.
+Print Assumptions C13_delete_colvar_destroys.
+
+Theorem C13_reset_leaves_no_variable_or_bias : forall (T : tables) n m m',
+  wf m -> m_reset T n m = Some m' ->
+  wf m' /\ mshrinks m m' /\ (forall o, alive_in (m_info m') o = true -> 2 <= class (m_objs m') o) /\ (acct m -> acct m').
+Proof. exact m_reset_wf. Qed.
+Print Assumptions C13_reset_leaves_no_variable_or_bias.
+
+(* non-vacuity on the real tables: two variables (the first with two atom groups sharing atom 1 with the second), a bias
+   on both, everything activated; deleting the first variable destroys it, its component, its groups and the bias, keeps
+   the second variable (unlinked from the bias), and leaves atom 1 with one reference, atoms 2 and 3 with none *)
+Definition ex_avail (k : nat) : list bool := repeat true k.
+Definition ex_ops : list mop :=
+  [MNewColvar (ex_avail 38) [(ex_avail 18, [(ex_avail 11, [1; 2]); (ex_avail 11, [3])])];
+   MNewColvar (ex_avail 38) [(ex_avail 18, [(ex_avail 11, [1])])];
+   MNewBias (ex_avail 17) [0; 4];
+   MPrim (OpEnable 0 34 false true false); MPrim (OpEnable 4 34 false true false);   (* scalar, as colvar::init sets it *)
+   MPrim (OpEnable 0 0 false true false); MPrim (OpEnable 4 0 false true false); MPrim (OpEnable 7 0 false true false);
+   MDeleteColvar 0].
+
+Example C13_example_define_delete : exists m',
+  m_run gen_tables 40 ex_ops (m_empty 5) = Some m' /\
+  map i_alive (m_info m') = [false; false; false; false; true; true; true; false] /\
+  m_atoms m' = [0; 1; 0; 0; 0]%Z /\
+  parents (m_objs m') 4 = [] /\
+  (* the surviving variable has lost "active" with its last bias: the known finding variable-deactivated-when-last-bias-deleted *)
+  is_enabled (m_objs m') 4 0 = false.
+Proof. eexists. split; [vm_compute; reflexivity|]. repeat split. Qed.
+
+(* ==== reference counts (InvModel.v: need, excess; DepsInv.v) ====
+   need T s o g = what the state accounts for on feature g of object o: enabled features of o listing g in requires_self
+   + recorded alternate_refs + (for every ACTIVE object p) occurrences of o among p's children x enabled features of p
+   listing g in requires_children;  excess = ref_count - need.
+   consistent T s = every excess >= 0 and every disabled feature has ref_count <= 0. *)
+
+(* Main lemma (any tables, any state whose object graph has a height decreasing from parent to child, any object,
+   feature, fuel, successful or refused call, with all cascades of automatic disables through the object and its
+   descendants): a complete call of disable ON A FEATURE WHOSE ref_count IS NOT EXACTLY 1 never lowers the excess of any
+   feature of any object: every reference it releases is matched by a requirement that disappears with it.
+   (_partial: the side condition is needed, see C13_no_switch_off_while_needed_refuted; the automatic disables made by
+   decr_ref_count inside the call happen at ref_count 0 and are covered.) *)
+Theorem C13_disable_never_lowers_excess_partial : forall (T : tables) (ht : nat -> nat) n o f s r s',
+  heights ht s -> rc s o f <> 1%Z -> disable T n o f s = Some (r, s') -> forall o' g, (excess T s o' g <= excess T s' o' g)%Z.
+Proof. exact disable_keeps_excess. Qed.
+Print Assumptions C13_disable_never_lowers_excess_partial.
+
+(* "At every point each enabled capability of every object has its prerequisites enabled": in a consistent state
+   requires_self, the chosen alternatives, and (for active objects) requires_children are all enabled. *)
+Theorem C13_consistent_prerequisites_enabled : forall (T : tables) s, consistent T s ->
+  (forall o f g, is_enabled s o f = true -> In g (f_self (feat T (cls_of s o) f)) -> is_enabled s o g = true) /\
+  (forall o f g, In g (fs_alt (get_fs s o f)) -> is_enabled s o g = true) /\
+  (forall p f g c, is_enabled s p 0 = true -> is_enabled s p f = true -> In g (f_children (feat T (cls_of s p) f)) ->
+                   In c (o_children (get_obj s p)) -> is_enabled s c g = true).
+Proof.
+  intros T s C. split; [|split].
+  - intros o f g. apply (consistent_requires_self T s o f g C).
+  - intros o f g. apply (consistent_alternates T s o f g C).
+  - intros p f g c. apply (consistent_requires_children T s p f g c C).
+Qed.
+Print Assumptions C13_consistent_prerequisites_enabled.
+
+(* "no capability is switched off while something that needs it remains", what holds of the code as it is:
+   for ALL finite sequences of the deletion operations {delete a bias, delete a variable with its biases, reset} from any
+   well-formed consistent state, consistency (hence the three prerequisite clauses above) holds afterwards;
+   missing for the full statement: switching a feature off by script (next theorem, with its side condition). *)
+Theorem C13_no_switch_off_while_needed_partial : forall (T : tables) n (ps : list mop) m m',
+  forallb deletion_op ps = true -> wf m -> consistent T (m_objs m) -> m_run T n ps m = Some m' ->
+  wf m' /\ consistent T (m_objs m').
+Proof. exact deletions_keep_consistency. Qed.
+Print Assumptions C13_no_switch_off_while_needed_partial.
+
+(* switching a feature off (script `set <feature> off`) keeps consistency when the feature does not hold exactly one
+   reference (with more than one the call is refused, with none nothing depends on it) *)
+Theorem C13_disable_keeps_consistency_partial : forall (T : tables) n o f m m',
+  wf m -> consistent T (m_objs m) -> rc (m_objs m) o f <> 1%Z -> m_prim T n (OpDisable o f) m = Some m' ->
+  wf m' /\ consistent T (m_objs m').
+Proof. exact disable_step_keeps_consistency. Qed.
+Print Assumptions C13_disable_keeps_consistency_partial.
+
+(* ... and WITHOUT the side condition it does not: the state of the counterexample above is consistent, the disable of
+   total_force (ref_count 1) succeeds, the result is not consistent *)
+Theorem C13_disable_keeps_consistency_refuted : exists s s',
+  consistent gen_tables s /\ rc s 0 7 = 1%Z /\ disable gen_tables 20 0 7 s = Some (true, s') /\ ~ consistent gen_tables s'.
+Proof.
+  destruct w3_witness as (s & s' & E & Hin & E20 & E7 & Hrc & D & E20' & E7').
+  exists s, s'. split; [|split; [exact Hrc|split; [exact D|]]].
+  - apply (consistent_check_sound gen_tables s 40). vm_compute in E. inversion E; subst. vm_compute. reflexivity.
+  - intros C. pose proof (consistent_requires_self gen_tables s' 0 20 7 C E20') as X.
+    assert (Hin' : In 7 (f_self (feat gen_tables (cls_of s' 0) 20))).
+    { vm_compute in E. inversion E; subst. vm_compute in D. inversion D; subst. vm_compute. auto 12. }
+    rewrite (X Hin') in E7'. discriminate.
+Qed.
+Print Assumptions C13_disable_keeps_consistency_refuted.
+
+(* deletion of a bias (colvarbias::clear + ~colvardeps) keeps consistency, no side condition *)
+Theorem C13_delete_bias_keeps_consistency : forall (T : tables) (ht : nat -> nat) n b s s',
+  heights ht s -> delete_bias T n b s = Some s' -> consistent T s -> consistent T s'.
+Proof. exact delete_bias_consistent. Qed.
+Print Assumptions C13_delete_bias_keeps_consistency.
+
+(* the finite checker that the tie runs (extracted) on every dependency state dumped from the implementation *)
+Theorem C13_consistent_check_sound : forall (T : tables) s G, consistent_check T s G = true -> consistent T s.
+Proof. exact consistent_check_sound. Qed.
+Print Assumptions C13_consistent_check_sound.
+
+(* the finite checkers of the structural premises (extracted, run on every dumped state) are sound *)
+Theorem C13_wf_check_sound : forall m, wf_check m = true -> wf m.
+Proof. exact wf_check_sound. Qed.
+Print Assumptions C13_wf_check_sound.
+
+Theorem C13_acct_check_sound : forall m, acct_check m = true -> acct m.
+Proof. exact acct_check_sound. Qed.
+Print Assumptions C13_acct_check_sound.
+
+(* non-vacuity on the real tables: the state of C13_example_define_delete just before the deletion (two active variables,
+   an active bias on both) is well-formed and consistent; the deletion of the first variable is a deletion sequence *)
+Example C13_example_consistent_computed : exists m m',
+  m_run gen_tables 40 (firstn 8 ex_ops) (m_empty 5) = Some m /\ consistent_check gen_tables (m_objs m) 40 = true /\
+  wf_check m = true /\ acct_check m = true /\
+  is_enabled (m_objs m) 7 0 = true /\ is_enabled (m_objs m) 0 0 = true /\ rc (m_objs m) 0 0 = 1%Z /\
+  m_run gen_tables 40 [MDeleteColvar 0] m = Some m'.
+Proof.
+  do 2 eexists. split; [vm_compute; reflexivity|]. split; [vm_compute; reflexivity|]. split; [vm_compute; reflexivity|].
+  split; [vm_compute; reflexivity|]. split; [vm_compute; reflexivity|].
+  split; [vm_compute; reflexivity|]. split; [vm_compute; reflexivity|]. vm_compute. reflexivity.
+Qed.
+
+Example C13_example_consistent : exists m m',
+  m_run gen_tables 40 (firstn 8 ex_ops) (m_empty 5) = Some m /\ wf m /\ consistent gen_tables (m_objs m) /\
+  is_enabled (m_objs m) 7 0 = true /\ is_enabled (m_objs m) 0 0 = true /\ rc (m_objs m) 0 0 = 1%Z /\
+  forallb deletion_op [MDeleteColvar 0] = true /\ m_run gen_tables 40 [MDeleteColvar 0] m = Some m' /\
+  consistent gen_tables (m_objs m').
+Proof.
+  destruct C13_example_consistent_computed as (m & m' & E & Ck & _ & _ & A1 & A2 & A3 & E').
+  assert (W : wf m) by (destruct (C13_initial_state_consistent 5) as (W0 & A0); apply (m_run_wf gen_tables 40 _ _ _ W0 A0 E)).
+  assert (C : consistent gen_tables (m_objs m)) by (apply (consistent_check_sound gen_tables (m_objs m) 40 Ck)).
+  exists m, m'. repeat (split; [assumption || reflexivity|]).
+  apply (deletions_keep_consistency gen_tables 40 [MDeleteColvar 0] m m' eq_refl W C E').
+Qed.
+
+(* non-vacuity of C13_disable_keeps_consistency_partial: in the same state the bias (object 7) is switched off:
+   its "active" holds no reference (top-level request), the call succeeds and releases the variables *)
+Example C13_example_disable_partial : exists m m',
+  m_run gen_tables 40 (firstn 8 ex_ops) (m_empty 5) = Some m /\ wf_check m = true /\ consistent_check gen_tables (m_objs m) 40 = true /\
+  rc (m_objs m) 7 0 = 0%Z /\ m_prim gen_tables 40 (OpDisable 7 0) m = Some m' /\
+  is_enabled (m_objs m') 7 0 = false /\ is_enabled (m_objs m') 0 0 = false.
+Proof.
+  do 2 eexists. split; [vm_compute; reflexivity|]. split; [vm_compute; reflexivity|]. split; [vm_compute; reflexivity|].
+  split; [vm_compute; reflexivity|]. split; [vm_compute; reflexivity|]. split; vm_compute; reflexivity.
+Qed.
+
+(* ==== round 2 ==== *)
+
+(* ---- "mutually exclusive capabilities are never enabled together", ENABLE side ----
+   For any tables that pass the boolean check (requires graph acyclic, exclusions symmetric, no feature excludes itself
+   or one of its transitive requirements), any state whose object graph has a height, any object, feature and flag
+   combination, successful or failed call with everything it enables on the way (requirements, alternatives probed and
+   taken, children, the wake-up of restore_children_deps): mutual exclusion is preserved.  With
+   C13_exclusion_preserved_by_release this covers every primitive. *)
+Theorem C13_enable_preserves_exclusion : forall (T : tables) (ht : nat -> nat) n o f dry top err s r s',
+  excl_tables_check T = true -> heights_of ht s -> excl_inv T s ->
+  enable T n o f dry top err s = Some (r, s') -> excl_inv T s'.
+Proof. exact enable_preserves_exclusion. Qed.
+Print Assumptions C13_enable_preserves_exclusion.
+
+Theorem C13_restore_preserves_exclusion : forall (T : tables) (ht : nat -> nat) n o s s',
+  excl_tables_check T = true -> heights_of ht s -> excl_inv T s ->
+  restore_children_deps T n o s = Some s' -> excl_inv T s'.
+Proof. exact restore_preserves_exclusion. Qed.
+Print Assumptions C13_restore_preserves_exclusion.
+
+(* the table facts hold on the tables regenerated from the binary (both variants) *)
+Theorem GenDeps_exclusion_table_facts : excl_tables_check gen_tables = true /\ excl_tables_check gen_tables_lagged = true.
+Proof. split; vm_compute; reflexivity. Qed.
+Print Assumptions GenDeps_exclusion_table_facts.
+
+(* non-vacuity: on the real tables the enable of C13_no_switch_off_while_needed_refuted starts from a state without
+   conflicts, in a one-object graph *)
+Example C13_example_exclusion : heights_of (fun _ => 0) w3_s0 /\ excl_inv gen_tables w3_s0 /\
+  exists s, enable gen_tables 20 0 20 false true false w3_s0 = Some (true, s) /\ excl_inv gen_tables s.
+Proof.
+  assert (H : heights_of (fun _ => 0) w3_s0).
+  { intros p c Hc. destruct p as [|p]; [cbn in Hc; contradiction|]. destruct p; cbn in Hc; contradiction. }
+  assert (X : excl_inv gen_tables w3_s0) by (apply excl_check_sound; vm_compute; reflexivity).
+  split; [exact H|]. split; [exact X|].
+  destruct w3_witness as (s & _ & E & _). exists s. split; [exact E|].
+  apply (enable_preserves_exclusion gen_tables (fun _ => 0) 20 0 20 false true false w3_s0 true s (proj1 GenDeps_exclusion_table_facts) H X E).
+Qed.
+
+(* ---- consistency is NOT preserved by the enable family in general (restore_children_deps ignores a failed child
+   enable): counterexample on synthetic tables (EnableWitness.v); not reachable on the tables of the binary as far as
+   the search goes, hence monitored on every dump instead *)
+Theorem C13_enable_keeps_consistency_refuted : exists (T : tables) s s',
+  consistent T s /\ enable T 10 1 0 false true false s = Some (true, s') /\ ~ consistent T s'.
+Proof. exact enable_breaks_consistency_syn. Qed.
+Print Assumptions C13_enable_keeps_consistency_refuted.
+
+(* ---- components and atom groups: every live component belongs to a variable, every live atom group to a component,
+   for ALL sequences of operations from the empty state ... *)
+Theorem C13_rooted_for_all_sequences : forall (T : tables) n (ps : list mop) m m',
+  wf m -> acct m -> rooted m -> m_run T n ps m = Some m' -> wf m' /\ acct m' /\ rooted m'.
+Proof. exact m_run_rooted. Qed.
+Print Assumptions C13_rooted_for_all_sequences.
+
+Theorem C13_initial_state_rooted : forall k, rooted (m_empty k).
+Proof. exact empty_rooted. Qed.
+Print Assumptions C13_initial_state_rooted.
+
+(* ... hence reset destroys EVERYTHING (variables, biases, components, atom groups) and brings every atom reference count
+   back to zero (atoms held through fitting groups and atoms shared between groups included: i_atoms lists both) *)
+Theorem C13_reset_destroys_everything : forall (T : tables) n m m',
+  wf m -> rooted m -> m_reset T n m = Some m' ->
+  (forall o, alive_in (m_info m') o = false) /\
+  (acct m -> forall a, a < length (m_atoms m') -> nth a (m_atoms m') 0%Z = 0%Z).
+Proof. exact reset_destroys_everything. Qed.
+Print Assumptions C13_reset_destroys_everything.
+
+(* non-vacuity: the example state is reached from the empty state, hence rooted; reset empties it *)
+Example C13_example_reset : exists m m',
+  m_run gen_tables 40 (firstn 8 ex_ops) (m_empty 5) = Some m /\ wf m /\ rooted m /\ acct m /\
+  m_reset gen_tables 40 m = Some m' /\ map i_alive (m_info m') = repeat false 8 /\ m_atoms m' = repeat 0%Z 5.
+Proof.
+  destruct C13_example_consistent_computed as (m & _ & E & _).
+  destruct (C13_initial_state_consistent 5) as (W0 & A0).
+  destruct (m_run_rooted gen_tables 40 _ _ _ W0 A0 (empty_rooted 5) E) as (W & A & R).
+  destruct (m_reset gen_tables 40 m) as [m'|] eqn:E'.
+  2:{ vm_compute in E. inversion E; subst. vm_compute in E'. discriminate. }
+  exists m, m'. repeat (split; [assumption || reflexivity|]).
+  vm_compute in E. inversion E; subst. vm_compute in E'. inversion E'; subst. split; reflexivity.
 Qed.
